@@ -803,7 +803,7 @@ def _conch_cases(ctx, part):
     os.makedirs(d, exist_ok=True)
     args = [binp, "-out", d, "-cases", "300" if ctx.tier == "quick" else "12000", "-ops", "12" if ctx.tier == "quick" else "14",
             "-sends", "8" if ctx.tier == "quick" else "12", "-fresh", "1500" if ctx.tier == "quick" else "20000", "-rebind", "150" if ctx.tier == "quick" else "3000",
-            "-onepipe", "1200" if ctx.tier == "quick" else "20000"]
+            "-onepipe", "1500" if ctx.tier == "quick" else "20000"]
     corpus = os.path.join(V.VERIF, "corpus", "C04", "conch.jsonl")
     if os.path.exists(corpus):
         args += ["-corpus", corpus]
